@@ -642,6 +642,14 @@ func (r *Reader) readRawBlock(bh blockHandle, verifyChecksum bool) ([]byte, erro
 			r.bpool.Put(data)
 			return nil, r.newErrCorruptedBH(bh, err.Error())
 		}
+		// The decoded length is a number in the block's first bytes. No snappy
+		// element yields more than 64 bytes for 3 bytes of input (a copy with
+		// a 2-byte offset), so a length above 32 times the block is a lie:
+		// do not allocate it only to have Decode find out.
+		if uint64(decLen) > 32*bh.length {
+			r.bpool.Put(data)
+			return nil, r.newErrCorruptedBH(bh, "snappy: decoded length exceeds what the block can hold")
+		}
 		decData := r.bpool.Get(decLen)
 		decData, err = snappy.Decode(decData, data[:bh.length])
 		r.bpool.Put(data)
